@@ -39,7 +39,7 @@ def _meta_lines(s):
 
 def check_tree(j, meta):
     node = interp.to_node(j)
-    f = []
+    f = _no_shared_defaults(node)
     base = None
     for indent, compact in OPTS:
         t = Tree(node, metadata=dict(meta))
@@ -130,6 +130,17 @@ def _accepts(case):
         return True
     except DecodeError:
         return False
+
+
+def _no_shared_defaults(node):
+    """A tree built without metadata owns its (empty) metadata: annotating it in place does not annotate other trees."""
+    t0 = Tree(node)
+    t0.metadata['__scribble'] = 'x'
+    t0.metadata['snt'] = 'not yours'
+    for what, s in (('Tree(node)', penman.format(Tree(node), indent=None)), ('plain tuple', penman.format(node, indent=None))):
+        if s.startswith('#') or '__scribble' in s:
+            return [('metadata-leaks-between-trees', 'after annotating another metadata-free tree, format(%s) -> %r' % (what, s[:120]))]
+    return []
 
 
 def nontrivial(case):
